@@ -103,7 +103,7 @@ class _Worker:
                         os.close(fd)
                     except OSError:
                         pass
-                _worker_main(p2c_r, c2p_w, idx)
+                _worker_main(p2c_r, c2p_w, idx, pool._initializer, pool._initargs)
             except BaseException:
                 traceback.print_exc()
             finally:
@@ -143,7 +143,7 @@ class _Worker:
             pass
 
 
-def _worker_main(rfd, wfd, idx):
+def _worker_main(rfd, wfd, idx, initializer=None, initargs=()):
     """Loop of a simulated worker process: run one task per baton."""
     global IN_WORKER
     IN_WORKER = True
@@ -169,6 +169,15 @@ def _worker_main(rfd, wfd, idx):
             first = False
             for fn in inits:
                 fn(idx, scramble)
+            if initializer is not None:
+                # ProcessPoolExecutor(initializer=..., initargs=...): runs once in every worker
+                # (inherited through fork, not pickled); a failing initializer kills the worker,
+                # which breaks the pool
+                try:
+                    initializer(*initargs)
+                except BaseException:  # noqa: B902
+                    traceback.print_exc()
+                    os._exit(18)
         if fault and fault[0] == "death" and fault[1] == "before":
             os._exit(17)
         child_ctx.armed_inner = fault[1] if fault and fault[0] == "inner" else None
